@@ -881,6 +881,19 @@ func (e *MetaCDC) startInternal(info *meta.TaskInfo, ignoreUpdateState bool) err
 			return err
 		}
 	}
+	started := false
+	defer func() {
+		if started {
+			return
+		}
+		// the task isn't started, release the replicate entity if it has been created for this task and no task uses it
+		e.replicateEntityMap.Lock()
+		if currentEntity, ok := e.replicateEntityMap.data[uKey]; ok && currentEntity == replicateEntity && replicateEntity.refCnt.Load() == 0 {
+			replicateEntity.entityQuitFunc()
+			delete(e.replicateEntityMap.data, uKey)
+		}
+		e.replicateEntityMap.Unlock()
+	}()
 
 	ctx := context.Background()
 	taskPositions, err := e.metaStoreFactory.GetTaskCollectionPositionMetaStore(ctx).Get(ctx, &meta.TaskCollectionPosition{TaskID: info.TaskID}, nil)
@@ -957,6 +970,11 @@ func (e *MetaCDC) startInternal(info *meta.TaskInfo, ignoreUpdateState bool) err
 		err = store.UpdateTaskState(e.metaStoreFactory.GetTaskInfoMetaStore(ctx), info.TaskID, meta.TaskStateRunning, []meta.TaskState{meta.TaskStateInitial, meta.TaskStatePaused}, "")
 		if err != nil {
 			taskLog.Warn("fail to update the task meta", zap.Error(err))
+			// the task isn't started, release the readers which have been registered above
+			if quitFunc, ok := replicateEntity.taskQuitFuncs.GetAndRemove(info.TaskID); ok {
+				quitFunc()
+				replicateEntity.refCnt.Dec()
+			}
 			return servererror.NewServerError(errors.WithMessage(err, "fail to update the task meta, task_id: "+info.TaskID))
 		}
 	}
@@ -966,6 +984,7 @@ func (e *MetaCDC) startInternal(info *meta.TaskInfo, ignoreUpdateState bool) err
 	e.cdcTasks.Unlock()
 	collectionReader.StartRead(readCtx)
 	channelReader.StartRead(readCtx)
+	started = true
 	return nil
 }
 
